@@ -1236,7 +1236,7 @@ func main() {
 		for _, k := range allKinds {
 			doKind(k, s, r0, rest, "random", true)
 		}
-		if i%2 == 0 {
+		if (!thorough && i%2 == 0) || (thorough && i%5 == 0) {
 			doDamaged(allKinds[(i/2)%6], s, r0)
 		}
 	}
